@@ -68,3 +68,45 @@ def ecdsa(eng, st, pk, sig, msg):
     SigS = to_sort(CLS('Signature'), eng.reg)
     ver = eng.uf('ecdsa_verifies', PkS, SigS, BYTES_SORT, z3.BoolSort())
     return V(ver(eng.term(pk, None, st), eng.term(sig, CLS('Signature'), st), eng.term(msg, BYTES, st)), BOOL)
+
+
+# ---- C05: numeric reading of 32-byte strings --------------------------------------------------------------------------
+
+@GH.ghost('be')
+def be(eng, st, b):
+    """big-endian value of a byte string (the same function int.from_bytes(..., 'big') and struct.unpack compute)"""
+    return eng.bytes_to_int(eng.term(b, BYTES, st), st)
+
+
+@GH.ghost('to_be32')
+def to_be32(eng, st, x):
+    return eng.int_to_bytes(eng.term(x, INT), 32, st)
+
+
+@GH.ghost('to_be8')
+def to_be8(eng, st, x):
+    return eng.int_to_bytes(eng.term(x, INT), 8, st)
+
+
+# ---- "the validator returns normally" predicates (defined by Contract.predicate; see pyvc.verify.predicate_term) -------
+
+def _pred(name, tys):
+    def g(eng, st, *args):
+        from pyvc.types import to_sort
+        ts = [eng.term(a, t, st) for a, t in zip(args, tys)]
+        f = eng.uf('pred_' + name, *([t.sort() for t in ts] + [z3.BoolSort()]))
+        return V(f(*ts), BOOL)
+    GH.ghosts[name] = g
+
+
+_pred('tx_by_itself', [CLS('Transaction')])
+_pred('tx_in_state', [CLS('Transaction'), BYTES, CLS('CoinState')])
+_pred('coinbase_by_itself', [CLS('Transaction')])
+_pred('coinbase_in_state', [CLS('Transaction'), CLS('Block'), CLS('CoinState')])
+_pred('no_dup_txs', [LIST(CLS('Transaction'))])
+_pred('no_dup_refs', [LIST(CLS('Transaction'))])
+_pred('header_ok', [CLS('BlockHeader'), INT])
+_pred('pow_ok', [BYTES, BYTES])
+_pred('ok_itself', [CLS('Block'), INT])
+_pred('ok_in_state', [CLS('Block'), CLS('CoinState')])
+_pred('summary_in_state', [CLS('BlockSummary'), CLS('CoinState')])
